@@ -11,6 +11,7 @@ Granularities (which trace events are scheduling points):
   'cache'  line events inside recognizers_text/model.py and recognizer.py (the check-then-act on the
            process-wide model cache), call events of every other library function
   'calls'  call events of every library function
+  'methods' call events of extract()/parse() methods only (few points per call: used for 2-preemption bounds)
   'coarse' call events of extract()/parse() methods and of every function defined in the orchestrating
            modules (merged extractor/parser, model classes, model factory): the method boundaries of the
            objects shared through the cache
@@ -101,6 +102,10 @@ class Execution(object):
                 return None
             if gran == 'coarse':
                 if frame.f_code.co_name in COARSE_NAMES or fn.endswith(COARSE_FILES):
+                    point(tid)
+                return None
+            if gran == 'methods':
+                if frame.f_code.co_name in COARSE_NAMES:
                     point(tid)
                 return None
             if gran == 'cache' and fn.endswith(cache_files):
